@@ -164,6 +164,8 @@ const preludeCommon = `
 (declare-fun ssub (Str Int Int) Str)
 (declare-fun rootid (Ref) Int)
 (declare-fun rtype (Ref) Int)
+(assert (forall ((r Ref) (i Int)) (! (= (rootid (fld r i)) (rootid r)) :pattern ((fld r i)))))
+(assert (forall ((r Ref) (i Int)) (! (= (rootid (elm r i)) (rootid r)) :pattern ((elm r i)))))
 (declare-fun box_fp ((_ FloatingPoint 11 53)) Int)
 (declare-fun unbox_fp (Int) (_ FloatingPoint 11 53))
 (declare-fun box_str (Str) Int)
